@@ -31,11 +31,19 @@ def _int_list_assigned(fn, name):
 
 
 def _bytes_list_in(fn):
-    """the first literal list/tuple/set of bytes constants inside function fn"""
-    for node in ast.walk(_fn_ast(fn)):
+    """the first literal list/tuple/set of bytes constants inside function fn; when the function instead tests
+    membership in a module-level constant (`x in NAME`), the value of that constant"""
+    tree = _fn_ast(fn)
+    for node in ast.walk(tree):
         if isinstance(node, (ast.List, ast.Tuple, ast.Set)) and node.elts and \
                 all(isinstance(e, ast.Constant) and isinstance(e.value, bytes) for e in node.elts):
             return [e.value for e in node.elts]
+    for node in ast.walk(tree):
+        if isinstance(node, ast.Compare) and len(node.ops) == 1 and isinstance(node.ops[0], (ast.In, ast.NotIn)) \
+                and isinstance(node.comparators[0], ast.Name):
+            v = fn.__globals__.get(node.comparators[0].id)
+            if isinstance(v, (list, tuple, set, frozenset)) and v and all(isinstance(e, bytes) for e in v):
+                return sorted(v) if isinstance(v, (set, frozenset)) else list(v)
     raise AssertionError("no literal list of bytes found in %s" % fn.__name__)
 
 
